@@ -13,7 +13,10 @@ H4 link         a generated client taking the address of every declared function
                 libcstl.so built from the working tree; the client objects define no external
                 symbol that comes from a header.                                  [link witnesses]
 
-The front end and the linker are the analysers here; nothing that is built is ever run.
+H6 name space   every macro that is still defined after all public headers were included (and that the
+                system headers they include do not define) carries the library prefix.   [preprocessor]
+
+The front end, the preprocessor and the linker are the analysers here; nothing that is built is ever run.
 """
 import itertools
 import os
@@ -237,3 +240,36 @@ def _link_witness(m, rep, r4, hdrs, flags, wd, ccs):
     else:
         r5.ok('client-objects', 'nm -g --defined-only shows only the client tables and main')
     rep.extra['link_configurations'] = len(links)
+
+    # ---- H6: what the headers leave defined --------------------------------------------
+    # a macro a public header defines and does not undefine is part of every client's name space: it must carry the
+    # library's prefix, or it retargets (or collides with) the client's own identifiers.  Decided by the preprocessor:
+    # macros defined after including every public header, minus those the system headers they include define.
+    import re as _re
+    r6 = rep.rule('H6', 'every macro the public headers leave defined carries the library prefix (CSTL / cstl)', floor=10)
+    sysinc = set()
+    for h in hdrs:
+        try:
+            sysinc |= set(_re.findall(r'^[ \t]*#[ \t]*include[ \t]*(<[^>]+>)', open(h).read(), _re.M))
+        except OSError:
+            pass
+
+    def macros(text, name):
+        path = os.path.join(wd, name)
+        with open(path, 'w') as fh:
+            fh.write(text)
+        p_ = subprocess.run(['gcc', '-dM', '-E'] + flags + [path], stdout=subprocess.PIPE, stderr=subprocess.PIPE)
+        if p_.returncode != 0:
+            return None
+        return {l.split()[1].split('(')[0] for l in p_.stdout.decode(errors='replace').splitlines() if l.startswith('#define ') and len(l.split()) > 1}
+    ma = macros(''.join('#include "cstl/%s"\n' % os.path.basename(h) for h in hdrs), 'macros_all.c')
+    mb = macros(''.join('#include %s\n' % x for x in sorted(sysinc)), 'macros_sys.c')
+    if ma is None or mb is None:
+        r6.undecided('macros', 'the preprocessor run failed')
+    else:
+        for name in sorted(ma - mb):
+            if 'cstl' in name.lower():
+                r6.ok(name, 'carries the library prefix')
+            else:
+                r6.violation(name, 'the public headers leave the macro `%s` defined: it has no library prefix, so it silently replaces (or collides '
+                             'with) an identifier of the same name in any client that includes a libcstl header' % name, '', {})
